@@ -103,7 +103,7 @@ for id in sorted(T):
             "demo_with_change": "go test %s -run '^(%s)$' %s -> exit %s (must fail)" % (open(os.path.join(d,'demo_flags')).read().strip() if os.path.exists(os.path.join(d,'demo_flags')) else '', conf.get("demo_tests"), conf.get("demo_packages"), conf.get("demo_with_change_exit")),
             "demo_without_change": "same command on the unchanged tree -> exit %s (must pass)" % conf.get("demo_without_change_exit"),
         },
-        "detected_by_checks": det.get("detected_by", []),
+        "detected_by_checks": [x.rstrip(",") for x in det.get("detected_by", [])],
         "checker_stuck": det.get("checker_stuck", []),
     }
     json.dump(meta, open(os.path.join(d, "meta.json"), "w"), indent=1)
